@@ -119,6 +119,15 @@ claim('C05',
   "statuses and max/min stable sizes by enumeration in Coq.",
   "C05: CBC assumed to satisfy milp_ok.")
 
+claim('C09',
+  "Coq composition theorem generated_file_imports (1 400 lines): for accepted arguments and draws honouring numpy's contract, the "
+  "generator model's text is imported character by character, without error, as a WELL-FORMED instance with the requested counts and "
+  "sidedness; hence (corollaries) LP mode never fails, reports Optimal iff feasible and prints a valid matching for any correct MILP back "
+  "end, and brute-force mode prints the exact optima. Tied to the code by M_pipeline: Generator(argv) -> Solver with the documented flags "
+  "(all four types, -stab on two-sided, -pc, 0..3 criteria, or -bf), judged by R_import/m_genfile and the C01/C02/C05/C07 monitors.",
+  "C09: numpy RNG contract (distinct choice, permutation shuffle) is the hypothesis draws_contract; CBC assumed to satisfy milp_ok; file "
+  "system effects trusted.")
+
 NOT_YET = {}
 
 def main():
